@@ -37,9 +37,12 @@ enum G { B(TimerGuard<'static>), O(OwnedTimerGuard), Gone }
 /// Runs a stopwatch history on the real implementation. While a borrowed guard is alive the stopwatch
 /// itself cannot be touched (Rust's borrow rule; the generator respects it), so those positions are
 /// reported as -1 ("not observable"), exactly as the model's codec masks them.
-fn exec_stopwatch(ops: &[Op], unwinding: bool) -> Sx {
+fn exec_stopwatch(ops: &[Op], unwinding: bool, placement: u64) -> Sx {
     let ts = ManuallyAdvancedTimeSource::at_time(UNIX_EPOCH);
-    let sw: *mut Stopwatch = Box::into_raw(Box::new(Stopwatch::new_from_timesource(TimeSource::custom(ts.clone()))));
+    with_ambient(&TimeSource::custom(ts.clone()), placement, |explicit| exec_stopwatch_in(ops, unwinding, &ts, explicit))
+}
+fn exec_stopwatch_in(ops: &[Op], unwinding: bool, ts: &ManuallyAdvancedTimeSource, explicit: Option<TimeSource>) -> Sx {
+    let sw: *mut Stopwatch = Box::into_raw(Box::new(match explicit { Some(src) => Stopwatch::new_from_timesource(src), None => Stopwatch::new() }));
     let mut guards: Vec<G> = vec![];
     let mut borrowed: Option<usize> = None;
     let mut obs = vec![];
@@ -87,16 +90,39 @@ fn exec_stopwatch(ops: &[Op], unwinding: bool) -> Sx {
     Sx::L(obs)
 }
 
-fn exec_timer(t0: u64, ops: &[(bool, u64)]) -> Sx {
+/// Where the object under test gets its time source from (last case argument, not read by the model):
+/// 0 = handed over explicitly; 1 = the ambient source: a thread-local override in force for the whole history;
+/// 2 = the same, created after an inner override by another clock has come and gone (its guard dropped);
+/// 3 = the same, the inner override being a `with_time_source` closure that has returned.
+fn with_ambient<T>(src: &TimeSource, placement: u64, f: impl FnOnce(Option<TimeSource>) -> T) -> T {
+    if placement == 0 {
+        return f(Some(src.clone()));
+    }
+    let _outer = metrique_timesource::set_time_source(src.clone());
+    let decoy = || TimeSource::custom(ManuallyAdvancedTimeSource::at_time(UNIX_EPOCH + Duration::from_secs(86_400 * 365 * 20)));
+    match placement {
+        2 => {
+            let inner = metrique_timesource::set_time_source(decoy());
+            drop(inner);
+        }
+        3 => metrique_timesource::with_time_source(decoy(), || ()),
+        _ => {}
+    }
+    f(None)
+}
+
+fn exec_timer(t0: u64, ops: &[(bool, u64)], placement: u64) -> Sx {
     let ts = ManuallyAdvancedTimeSource::at_time(UNIX_EPOCH);
     ts.update_instant(Duration::from_nanos(t0));
-    let mut t = Timer::start_now_with_timesource(TimeSource::custom(ts.clone()));
-    let mut obs = vec![];
-    for &(stop, d) in ops {
-        if stop { t.stop(); } else { ts.update_instant(Duration::from_nanos(d)); }
-        obs.push(sx::n((&t).close().as_nanos()));
-    }
-    Sx::L(obs)
+    with_ambient(&TimeSource::custom(ts.clone()), placement, |explicit| {
+        let mut t = match explicit { Some(src) => Timer::start_now_with_timesource(src), None => Timer::start_now() };
+        let mut obs = vec![];
+        for &(stop, d) in ops {
+            if stop { t.stop(); } else { ts.update_instant(Duration::from_nanos(d)); }
+            obs.push(sx::n((&t).close().as_nanos()));
+        }
+        Sx::L(obs)
+    })
 }
 
 /// A ValueWriter that captures the string a timestamp formatter writes.
@@ -114,7 +140,7 @@ fn wall(nanos: i128) -> std::time::SystemTime {
 
 /// Timestamp (sampled at creation) or TimestampOnClose (sampled at close) over an injected wall clock, read through
 /// the three epoch formatters; seconds / milliseconds are reported as the bits of the f64 the printed text denotes.
-fn exec_timestamp(on_close: bool, w0: i128, w1: i128) -> Sx {
+fn exec_timestamp(on_close: bool, w0: i128, w1: i128, placement: u64) -> Sx {
     use metrique::timers::{EpochMicros, EpochMillis, EpochSeconds, Timestamp, TimestampOnClose, TimestampValue};
     use metrique_writer_core::value::ValueFormatter;
     let ts = ManuallyAdvancedTimeSource::at_time(wall(w0));
@@ -126,7 +152,7 @@ fn exec_timestamp(on_close: bool, w0: i128, w1: i128) -> Sx {
         ts.update_time(wall(w1));
         t.close()
     } else {
-        let t = Timestamp::new_from_time_source(source);
+        let t = with_ambient(&source, placement, |explicit| match explicit { Some(src) => Timestamp::new_from_time_source(src), None => Timestamp::now() });
         ts.update_time(wall(w1));
         t.close()
     };
@@ -146,18 +172,21 @@ pub fn exec(case: &Sx) -> (Sx, bool) {
     match case.tag() {
         2 => {
             let z = |x: &Sx| match x { Sx::A(neg, m) => if *neg { -(*m as i128) } else { *m as i128 }, _ => 0 };
-            (exec_timestamp(case.arg(0).num() != 0, z(case.arg(1)), z(case.arg(2))), true)
+            let placement = if case.list().len() > 4 { case.arg(3).num() as u64 } else { 0 };
+            (exec_timestamp(case.arg(0).num() != 0, z(case.arg(1)), z(case.arg(2)), placement), true)
         }
         0 => {
             let ops: Vec<Op> = case.arg(0).list().iter().map(dec_op).collect();
             let nontrivial = ops.iter().filter(|o| matches!(o, Op::Stop(_) | Op::Overwrite(_) | Op::Discard(_))).count() >= 1;
             // second argument (not read by the model): every guard that is stopped is dropped by an unwinding frame
             let unwinding = case.list().len() > 2 && case.arg(1).num() != 0;
-            (exec_stopwatch(&ops, unwinding), nontrivial)
+            let placement = if case.list().len() > 3 { case.arg(2).num() as u64 } else { 0 };
+            (exec_stopwatch(&ops, unwinding, placement), nontrivial)
         }
         _ => {
             let ops: Vec<(bool, u64)> = case.arg(1).list().iter().map(|x| (x.tag() == 1, x.arg(0).num() as u64)).collect();
-            (exec_timer(case.arg(0).num() as u64, &ops), ops.iter().any(|o| o.0))
+            let placement = if case.list().len() > 3 { case.arg(2).num() as u64 } else { 0 };
+            (exec_timer(case.arg(0).num() as u64, &ops, placement), ops.iter().any(|o| o.0))
         }
     }
 }
@@ -250,13 +279,22 @@ pub fn run(ctx: &Ctx) {
             out.count(match o { Op::Adv(_) => "op_adv", Op::StartB => "op_start", Op::StartO => "op_start_owned", Op::Stop(_) => "op_stop", Op::Overwrite(_) => "op_overwrite", Op::Discard(_) => "op_discard", Op::Clear => "op_clear" });
         }
         emit(&mut out, sx::tag(0, vec![Sx::L(ops.iter().map(enc_op).collect())]));
+        if rng.chance(1, 3) {
+            // the stopwatch created through the ambient time source (a thread-local override, possibly after an inner
+            // override has come and gone)
+            out.count("stopwatch_cases_on_the_ambient_time_source");
+            emit(&mut out, sx::tag(0, vec![Sx::L(ops.iter().map(enc_op).collect()), sx::boolean(false), sx::n(1 + rng.below(3))]));
+        }
     }
     for _ in 0..(nrand / 4) {
         let t0 = rng.range(0, 1_000_000);
         let len = rng.range(1, 12) as usize;
         let ops: Vec<Sx> = (0..len).map(|_| if rng.chance(1, 3) { sx::tag(1, vec![]) } else { sx::tag(0, vec![sx::n(rng.range(0, 5_000_000_000))]) }).collect();
         out.count("timer_cases");
-        emit(&mut out, sx::tag(1, vec![sx::n(t0), Sx::L(ops)]));
+        emit(&mut out, sx::tag(1, vec![sx::n(t0), Sx::L(ops.clone())]));
+        let pl = 1 + rng.below(3);
+        out.count("timer_cases_on_the_ambient_time_source");
+        emit(&mut out, sx::tag(1, vec![sx::n(t0), Sx::L(ops), sx::n(pl)]));
     }
     for _ in 0..(nrand / 2) {
         let w = |rng: &mut Rng| -> i128 { match rng.below(8) {
@@ -268,6 +306,9 @@ pub fn run(ctx: &Ctx) {
         let (w0, w1) = (w(&mut rng), w(&mut rng));
         out.count("timestamp_cases");
         emit(&mut out, sx::tag(2, vec![sx::boolean(rng.chance(1, 2)), sx::z(w0), sx::z(w1)]));
+        let pl = 1 + rng.below(3);
+        out.count("timestamp_cases_on_the_ambient_time_source");
+        emit(&mut out, sx::tag(2, vec![sx::boolean(false), sx::z(w0), sx::z(w1), sx::n(pl)]));
     }
-    out.finish("stopwatch: every well-scoped operation sequence up to the tier's depth (exhaustive, one clock step size) plus random longer ones; timer: random advance/stop sequences; timestamps: random wall clocks (before the epoch, sub-microsecond, > 2^53 ns) for Timestamp and TimestampOnClose through the three epoch formatters. Non-trivial = at least one guard completion (stop/drop/overwrite/discard) resp. one timer stop; distinct by hash of the case");
+    out.finish("stopwatch: every well-scoped operation sequence up to the tier's depth (exhaustive, one clock step size) plus random longer ones; timer: random advance/stop sequences; timestamps: random wall clocks (before the epoch, sub-microsecond, > 2^53 ns) for Timestamp and TimestampOnClose through the three epoch formatters; a third of the random stopwatch histories and every timer / Timestamp case again with the object created through the ambient time source (thread-local override alone, or after a nested override by another clock has ended). Non-trivial = at least one guard completion (stop/drop/overwrite/discard) resp. one timer stop; distinct by hash of the case");
 }
